@@ -240,6 +240,6 @@ int main(int argc, char** argv)
 	if (run.prop == "C04") fn = caseC04; else if (run.prop == "C16") fn = caseC16;
 	else { fprintf(stderr, "mon_sim: unknown property %s\n", run.prop.c_str()); return 2; }
 	uint64_t idx;
-	while (run.next(idx)) { vh::Rng g = run.rng(idx); fn(idx, g); }
+	while (run.next(idx)) { vh::Rng g = run.rng(idx); vu::insertionRng() = &g; fn(idx, g); }
 	return run.finish();
 }
